@@ -8,7 +8,7 @@
    event stream.  The c24_any_* theorems say the same for an arbitrary interleaving of "absorb one input event" and
    "publish one crumb", of which the real loop is one instance (so they do not depend on how the queue is batched). *)
 From Coq Require Import List NArith Arith Bool.
-From Verif.C24 Require Import Model Spec Proofs ProofsSorted ProofsInv ProofsRun ProofsClient ProofsMain ProofsTop ProofsOracle.
+From Verif.C24 Require Import Model Spec Sender Proofs ProofsSorted ProofsInv ProofsRun ProofsClient ProofsMain ProofsTop ProofsOracle ProofsSender ProofsTop2.
 Import ListNotations.
 
 (* The snapshot messages carry exactly the entries of the crumb's tree, in key order, for every message size. *)
@@ -95,6 +95,64 @@ Theorem c24_model_meets_spec : forall maxb pushes maxm i gs ci,
 Proof. exact model_meets_spec. Qed.
 Print Assumptions c24_model_meets_spec.
 
+(* ---- the coalescing decision of sendDeltaUpdatesToClient (Sender.round / Sender.groups) --------------------------- *)
+(* Catch-up completes: whatever the newest crumb the sender sees each time it looks (lats), if it looked at least once
+   per remaining crumb then every crumb is followed exactly once and every round follows at least one. *)
+Theorem c24_sender_follows_all : forall thr maxm fuel rest lats,
+  length rest <= fuel -> length rest <= length lats ->
+  list_sum (groups fuel thr maxm rest lats) = length rest /\ Forall (fun g => 1 <= g) (groups fuel thr maxm rest lats).
+Proof. exact groups_spec. Qed.
+Print Assumptions c24_sender_follows_all.
+
+(* A client that keeps up (every crumb younger than MinBatchingAgeThreshold when followed) gets one round per crumb. *)
+Theorem c24_sender_no_coalescing_when_fresh : forall thr maxm rest lats,
+  length lats = length rest ->
+  Forall (fun p => N.ltb (snd p - fst (fst p)) thr = true) (combine rest lats) ->
+  groups (length rest) thr maxm rest lats = repeat 1 (length rest).
+Proof. exact groups_fresh. Qed.
+Print Assumptions c24_sender_no_coalescing_when_fresh.
+
+(* Message size: all crumbs of a round but the last together carry fewer than MaxMessageSize deltas. *)
+Theorem c24_sender_message_bound : forall thr maxm rest lats g lats',
+  (0 < maxm)%N -> round thr maxm 0 rest lats 0 = (g, lats') -> 0 < g ->
+  (ndsum (firstn (g - 1) rest) < maxm)%N.
+Proof.
+  intros thr maxm rest lats g lats' M R G.
+  pose proof (round_bound thr maxm rest 0%N lats 0 g lats' M R G) as H.
+  rewrite N.add_0_l, Nat.sub_0_r in H. exact H.
+Qed.
+Print Assumptions c24_sender_message_bound.
+
+(* The client converges and the oracle accepts, with the coalescing COMPUTED by the sender model from any clock
+   readings (tss: crumb timestamps, lat_idx: newest crumb seen at each step), any threshold and message size. *)
+Theorem c24_converges_computed_batching : forall maxb pushes thr maxmsg tss lat_idx maxm i ci,
+  let ch := chain (run maxb pushes) in
+  nth_error ch i = Some ci -> length tss = length ch -> length (skipn (S i) ch) <= length lat_idx ->
+  let cbs := client_run maxm ch i (sender_groups thr maxmsg ch tss i lat_idx) in
+  converged (concat pushes) cbs /\ ok_client (concat pushes) cbs = true.
+Proof.
+  intros maxb pushes thr maxmsg tss lat_idx maxm i ci ch H1 H2 H3 cbs. split.
+  - exact (top2_converges maxb pushes thr maxmsg tss lat_idx maxm i ci H1 H2 H3).
+  - exact (top2_oracle maxb pushes thr maxmsg tss lat_idx maxm i ci H1 H2 H3).
+Qed.
+Print Assumptions c24_converges_computed_batching.
+
+(* ---- the pre-built snapshot cache (Sender.snap_req / snap_run) ----------------------------------------------------- *)
+(* Every snapshot served was made from a crumb that is not newer than the newest one: the join point of a client that
+   took the pre-built snapshot is a crumb of the chain, so the theorems above apply to it. *)
+Theorem c24_snapshot_cache_serves_existing_crumb : forall validity tss reqs,
+  mono_reqs 0 0 reqs -> Forall2 (fun j r => j <= snd r) (snap_run validity tss None reqs) reqs.
+Proof. intros. eapply snap_run_le; [|eassumption]. intros a E; discriminate. Qed.
+Print Assumptions c24_snapshot_cache_serves_existing_crumb.
+
+(* An older crumb is served only while its snapshot is younger than BinarySnapshotTimeout. *)
+Theorem c24_snapshot_cache_staleness_bounded : forall validity tss st t cur j st' p,
+  snap_req validity tss st t cur = (j, st') ->
+  j < cur -> nth_error tss (S j) = Some p -> (p <= t)%N ->
+  exists t0, st = Some (j, t0) /\ (t < t0 + validity)%N.
+Proof. exact snap_req_fresh. Qed.
+Print Assumptions c24_snapshot_cache_staleness_bounded.
+
 (* Non-vacuity: a run with a no-op update, a delete, a split batch (MaxBatchSize 2), InSync declared before the last
    updates; a client joining at crumb 2 whose delta loop coalesces two crumbs. *)
 Definition ex_pushes : list (list event) :=
@@ -118,3 +176,9 @@ Example c24_example_hyps :
   let ch := chain (run 2 ex_pushes) in
   (exists ci, nth_error ch 2 = Some ci /\ c_status ci = SWait) /\ length (skipn 3 ch) <= list_sum [2; 1].
 Proof. vm_compute. split; [eexists; split; reflexivity|repeat constructor]. Qed.
+
+(* the sender model on a concrete clock: crumb 3 is fresh when followed (threshold 100 ms), crumb 4 is old and is coalesced with crumb 5 *)
+Example c24_example_sender :
+  sender_groups 100000000 100 (chain (run 2 ex_pushes)) [0; 0; 0; 0; 0; 500000000]%N 2 [4; 5; 5]%N = [1; 2]
+  /\ snap_run 1000 [0; 10; 5000]%N None [(20%N, 1); (30%N, 1); (900%N, 1); (6000%N, 2); (6001%N, 2)] = [1; 1; 1; 2; 2].
+Proof. vm_compute. split; reflexivity. Qed.
